@@ -26,7 +26,8 @@ TECHNIQUE = ("the real ScheduledFiniteBurnEvent/ScheduledFiniteManeuverEvent.han
              "can differ from |[t_s,t_e] n [T0,T2]| (or the integrated span H from T2-T0). Counterexamples are replayed on the real SpecialPerturbations.propagate with the "
              "real scipy solve_ivp; known findings are z3 regions over (T0, dt, t_s, t_e, D). O4: the same with TWO finite thrusts of the agent in the event queue "
              "(s1 < e1 < s2 < e2, own acceleration vectors a1, a2, four queue modes incl. the later burn queued first): per path the ring identity 'dv = g*H + a1*D1 + a2*D2', then "
-             "D_i against |[s_i,e_i] n [T0,T2]| over all paths. O5: a call with a burn still on at its end followed by an event-free call on the same dynamics object and on a fresh one")
+             "D_i against |[s_i,e_i] n [T0,T2]| over all paths. Tolerance comparisons of numpy/math (isclose, allclose), should the analysed code use them, enter as their defining formula "
+             "in one solver term, so that relative tolerances are exercised by short burns at large scenario times (O1 item 'T0 >= 86400 s, burn <= 1 s'). O5: a call with a burn still on at its end followed by an event-free call on the same dynamics object and on a fresh one")
 FLOAT_SEMANTICS = ("Real-ideal for the trajectory; the code's own floating-point guards are kept as written: fpe_equals compares with the double finfo(float).resolution (~1e-15) exactly, "
                    "numpy.spacing and brentq's 4 ulp tolerance enter as bounded solver variables")
 ENCODED = [
@@ -58,6 +59,7 @@ TOL_T = Fraction(1, 10 ** 6)  # s: tolerance on the delivered thrust duration
 T_MIN, T_MAX = 0, 2 ** 20
 DT_MIN, DT_MAX = 1, 3600
 BURN_MIN = Fraction(1, 1000)
+LATE_T0, LATE_BURN = 86400, 1  # the "short burn late in the scenario" special case: T0 >= one day, burn of at most 1 s
 GAP_MIN = BURN_MIN  # O4: s2 - e1 >= 1e-3 s: touching burns (e1 == s2) are outside, see OUTSIDE
 
 BOUNDS = {
@@ -67,6 +69,9 @@ BOUNDS = {
              "within 1e-9 of T2 / after T2): 25 (start, end) classes, each shown inhabited; obligations are grouped by the end zone (inside / boundary / outside)",
     "integrator": "quick: exactly 2 solver steps per solve_ivp call (fewer when a terminal event ends it), <= 8 solve_ivp calls per path, no restart re-trigger chain; "
                   "thorough adds: 1|2 steps chosen per call; 2 steps with re-trigger chains <= 2; 3 and 4 steps with chains <= 1; <= 12 calls per path",
+    "short burns late in the scenario": f"inside the time bounds above (T0 up to {T_MAX} s = 12 days, burns down to {float(BURN_MIN)} s): any comparison in the code whose tolerance scales with the "
+                                        f"absolute scenario time (relative tolerances) is exercised with burns 10^9 times shorter than the time stamp; O1 states the class T0 >= {LATE_T0} s, burn <= {LATE_BURN} s "
+                                        "as an own item per end-zone group (shown inhabited)",
     "tolerance": f"delivered duration compared with |[t_s,t_e] n [T0,T2]| within {float(TOL_T)} s (covers the <= 2^-33 s skipped at each restart, the 4 ulp root tolerance and the 1e-9 zones)",
     "vectors": "thrust acceleration a, natural acceleration g, initial state: all real vectors (symbolic in the per-path ring identity); event kinds: finite burn (ECI frame) and finite maneuver (spiral)",
     "two burns (O4)": f"two finite thrusts A=[s1,e1], B=[s2,e2] of the same agent, e1 - s1, e2 - s2 >= {float(BURN_MIN)} s and s2 - e1 >= {float(GAP_MIN)} s (non-overlapping, not touching), accelerations a1, a2 any real vectors; "
@@ -93,6 +98,8 @@ OUTSIDE = [
     "simultaneous terminal events and scipy's solve_ivp reports only the first of them, so which callback wins depends on the queue order",
     "two burns of DIFFERENT agents / several agents sharing one dynamics object between their calls (O5 covers only: burn call followed by an event-free call)",
     "propagateBulk, station keeping, impulses (C01/C03)",
+    "code that compares times through numpy.isclose / numpy.allclose / math.isclose (none on the current tree): decided in exact reals, inputs sitting on the comparison's threshold "
+    "(band in ASSUMPTIONS) are outside - double rounding of a - b and of atol + rtol*|b| decides those",
 ]
 ASSUMPTIONS = [
     "solve_ivp -> symx.ext_c15.SolveIvpContract (event protocol of scipy 1.18.1 ivp.py l.29-157, 651-760, rk.py l.138-139, hash-pinned; brentq end-point/bracket facts; "
@@ -101,6 +108,11 @@ ASSUMPTIONS = [
     "SpecialPerturbations: JulianDate/julianDateToDatetime/ReductionParams/_getRotationMatrix/Sun -> tokens, nonSphericalAcceleration -> one symbolic constant vector g (the natural acceleration), "
     "Earth.mu -> 0, norm -> 1, checkEarthCollision -> no-op, empty_like/zeros -> object arrays: the thrust on/off logic does not read any of them",
     "EventStack.pushEvent (Ray key-value store log) -> list append (also in the replay, unless C15_REPLAY_RAY=1)",
+    "numpy.isclose / numpy.allclose / math.isclose (also reached as np.isclose / math.isclose through a module binding), wherever one of the analysed modules (finite_thrust, celestial, "
+    "special_perturbations, agent_base, data.events.finite_burn/finite_maneuver/base, physics.maths) binds them - none does on the current tree -> their defining formulas in exact reals as one "
+    "solver term: |a-b| <= atol + rtol*|b| or a == b (numpy/_core/numeric.py; numpy's own implementation raises on proxies: the ufunc isfinite has no object loop), "
+    "|a-b| <= max(rel_tol*max(|a|,|b|), abs_tol) (math); at each such comparison the inputs with ||a-b| - thr| <= min(thr/2, 2^-30*thr + 2^-46*(|a|+|b|)) are assumed away "
+    "(double rounding decides them; a counterexample there would not replay)",
     "JulianDate in data.events.finite_burn/finite_maneuver -> exact real with convertToScenarioTime(jd0) = (jd - jd0) * 24 * 3600",
     "driver mirrors PropagateRegistration.generateSubmission/asyncPropagate/processResults: deliver (handleEvent) when t_s <= T_{k+1} and t_e > T_k (the getRelevantEvents window), prune, propagate, advance time",
     "O1 maneuver kind: ntw2eci -> identity frame; O2-callables: ntw2eci -> a symbolic 3x3 matrix applied to both halves",
@@ -185,6 +197,134 @@ def _sym_empty_like(a, dtype=None, **k):
     return sym_zeros(np.shape(a))
 
 
+# ---- tolerance comparisons of numpy / math on proxies -------------------------------------------------------------------
+# numpy.isclose cannot run on proxies (it calls the ufunc `isfinite`, which has no object-dtype loop: TypeError), so code that asks
+# "is this time the event time?" through numpy.isclose / numpy.allclose / math.isclose would only produce a harness error.  Whenever one of
+# the analysed modules binds one of these functions, the binding is shadowed by its defining formula as ONE solver term (the `if` of the
+# calling code then forks on it like on any other comparison):
+#     numpy.isclose(a, b, rtol=1e-5, atol=1e-8)      = (|a - b| <= atol + rtol * |b|) & isfinite(b) | (a == b)     [numpy/_core/numeric.py]
+#     math.isclose(a, b, rel_tol=1e-9, abs_tol=0.0)  = |a - b| <= max(rel_tol * max(|a|, |b|), abs_tol)
+# Exact reals.  In doubles the roundings of the operands, of a - b and of the threshold decide inputs that sit on the threshold, so a counterexample
+# there would not replay: inputs with  | |a-b| - thr | <= min(thr/2, 2^-30 * thr + 2^-46 * (|a| + |b|))  are assumed away at each such comparison
+# (2^-46 (|a|+|b|): 16 x the 4 ulp root tolerance of brentq plus the rounding of the model's rationals to doubles; exact coincidence a == b stays inside).
+CLOSE_BAND_REL, CLOSE_BAND_MAG = Fraction(1, 2 ** 30), Fraction(1, 2 ** 46)
+
+
+def _is_proxy(x):
+    from symx.core import SBool, SInt
+
+    return isinstance(x, (SReal, SInt, SBool))
+
+
+def _has_proxy(*xs):
+    for x in xs:
+        if _is_proxy(x):
+            return True
+        if isinstance(x, np.ndarray) and x.dtype == object and any(_is_proxy(v) for v in x.flat):
+            return True
+        if isinstance(x, (list, tuple)) and any(_has_proxy(v) for v in x):
+            return True
+    return False
+
+
+def _term(x):
+    from symx.core import SInt
+
+    if isinstance(x, SReal):
+        return x.t
+    if isinstance(x, SInt):
+        return z3.ToReal(x.t)
+    return rv(x)
+
+
+def _min(a, b):
+    return z3.If(a <= b, a, b)
+
+
+def _within(d, thr, mag, also=None):
+    """SBool of  d <= thr  (or `also`); a band around the threshold is excluded from the inputs of the path (mag = |a| + |b|)."""
+    from symx.core import SBool
+
+    band = _min(thr / 2, rv(CLOSE_BAND_REL) * thr + rv(CLOSE_BAND_MAG) * mag)
+    assume(z3.Or(d < thr - band, d > thr + band, thr <= 0))
+    c = d <= thr
+    return SBool(z3.simplify(c if also is None else z3.Or(c, also)))
+
+
+def _isclose1(a, b, rtol, atol):
+    x, y = _term(a), _term(b)
+    return _within(_abs(x - y), _term(atol) + _term(rtol) * _abs(y), _abs(x) + _abs(y), also=(x == y))
+
+
+def sym_isclose(a, b, rtol=1e-05, atol=1e-08, equal_nan=False):
+    if not _has_proxy(a, b, rtol, atol):
+        return np.isclose(a, b, rtol=rtol, atol=atol, equal_nan=equal_nan)
+    arrs = np.broadcast_arrays(*[np.asarray(v, dtype=object) for v in (a, b, rtol, atol)])
+    out = np.empty(arrs[0].shape, dtype=object)
+    for idx in np.ndindex(*out.shape):
+        out[idx] = _isclose1(*[v[idx] for v in arrs])
+    return out[()]
+
+
+def sym_allclose(a, b, rtol=1e-05, atol=1e-08, equal_nan=False):
+    from symx.core import SBool
+
+    r = sym_isclose(a, b, rtol=rtol, atol=atol, equal_nan=equal_nan)
+    if not _has_proxy(r):
+        return bool(np.all(r))
+    return SBool(z3.simplify(z3.And(*[(v.t if _is_proxy(v) else z3.BoolVal(bool(v))) for v in np.asarray(r, dtype=object).flat])))
+
+
+def sym_math_isclose(a, b, *, rel_tol=1e-09, abs_tol=0.0):
+    import math
+
+    if not _has_proxy(a, b, rel_tol, abs_tol):
+        return math.isclose(a, b, rel_tol=rel_tol, abs_tol=abs_tol)
+    x, y, r, t = _term(a), _term(b), _term(rel_tol), _term(abs_tol)
+    ax, ay = _abs(x), _abs(y)
+    big = r * z3.If(ax >= ay, ax, ay)
+    return _within(_abs(x - y), z3.If(big >= t, big, t), ax + ay, also=(x == y))
+
+
+def _closeness_shadows(modules):
+    """shadow() context managers replacing, in the given modules, every global bound to numpy.isclose / numpy.allclose / math.isclose."""
+    import math
+
+    model = {id(np.isclose): sym_isclose, id(np.allclose): sym_allclose, id(math.isclose): sym_math_isclose}
+    spaces = {id(np): _ModView(np, isclose=sym_isclose, allclose=sym_allclose), id(math): _ModView(math, isclose=sym_math_isclose)}  # `import numpy as np; np.isclose(...)`
+    out = []
+    for mod in modules:
+        found = {name: model[id(val)] for name, val in list(vars(mod).items()) if id(val) in model}
+        found.update({name: spaces[id(val)] for name, val in list(vars(mod).items()) if id(val) in spaces and not name.startswith("__")})
+        if found:
+            out.append(shadow(mod, **found))
+    return out
+
+
+class _ModView:
+    """A module seen through a few replaced attributes."""
+
+    def __init__(self, mod, **over):
+        self.__dict__.update(_mod=mod, _over=over)
+
+    def __getattr__(self, name):
+        over = self.__dict__["_over"]
+        return over[name] if name in over else getattr(self.__dict__["_mod"], name)
+
+
+def _analysed_modules():
+    from resonaate.agents import agent_base as AB
+    from resonaate.data.events import base as EB
+    from resonaate.data.events import finite_burn as FB
+    from resonaate.data.events import finite_maneuver as FM
+    from resonaate.dynamics import celestial as CEL
+    from resonaate.dynamics import special_perturbations as SP
+    from resonaate.dynamics.integration_events import finite_thrust as FT
+    from resonaate.physics import maths as MA
+
+    return [FT, CEL, SP, AB, FB, FM, EB, MA]
+
+
 _DYN = [None]
 
 
@@ -261,7 +401,7 @@ class _World:
                    _getRotationMatrix=lambda jd, red: np.eye(3), nonSphericalAcceleration=lambda *args: g, Sun=_Tok, Earth=_Tok, norm=lambda v: SReal(1),
                    checkEarthCollision=lambda r: None),
             shadow(FT, **ft), shadow(FB, JulianDate=_SymJD), shadow(FM, JulianDate=_SymJD),
-        ]
+        ] + _closeness_shadows(_analysed_modules())
         for c in self.cms:
             c.__enter__()
         return self
@@ -692,6 +832,10 @@ def _o1_cfg(rep, kind, zes, cfg):
     # much / too little) over the whole class, then the tight tolerance
     nice = [V.T0 == 60, V.dt == 60, V.ts == z3.ToReal(z3.ToInt(V.ts)), V.te == z3.ToReal(z3.ToInt(V.te)), V.te - V.ts <= 30]
     rep.prove(f"{pre}: delivered[T0=dt=60s, whole seconds, burn<=30s]", goal, base + nice, sample=sample + " - special case 60 s grid, whole-second burn times, burns of at most 30 s", **kw)
+    # short burns late in the scenario (seconds against days: any comparison of the code that scales with the absolute time is exercised here)
+    late = [V.T0 >= LATE_T0, V.te - V.ts <= LATE_BURN]
+    rep.reachable(f"{pre}: a burn of at most {LATE_BURN} s with T0 >= {LATE_T0} s", base + late)
+    rep.prove(f"{pre}: delivered[T0>={LATE_T0}s, burn<={LATE_BURN}s]", goal, base + late, sample=sample + f" - burns of at most {LATE_BURN} s (down to {float(BURN_MIN)} s) at scenario times of at least {LATE_T0} s", **kw)
     rep.prove(f"{pre}: delivered-gross", z3.And(_near(V.Dur, V.L, z3.RealVal(1)), _near(V.Hsp, V.span, tol)), base, sample=sample, **kw)
     rep.prove(f"{pre}: delivered", goal, base, sample=sample, **kw)
 
@@ -854,7 +998,15 @@ def o2_prune(rep, tier):
         Agent.prunePropagateEvents(ag)
         return [("burn" if e is b or e is b2 else "maneuver") for e in ag.propagate_event_queue]
 
-    res = explore(run, max_paths=64)
+    def run_shadowed():
+        import contextlib
+
+        with contextlib.ExitStack() as st:
+            for cm in _closeness_shadows(_analysed_modules()):
+                st.enter_context(cm)
+            return run()
+
+    res = explore(run_shadowed, max_paths=64)
     now, ts, te = z3.Real("now"), z3.Real("ts"), z3.Real("te")
     seen = set()
     inputs = lambda m: {"now": mfloat(m, now), "ts": mfloat(m, ts), "te": mfloat(m, te)}  # noqa: E731
@@ -1113,7 +1265,9 @@ def replay_o4(d):
     dv_sec = np.linalg.lstsq(A, dv, rcond=None)[0]
     resid = float(np.linalg.norm(dv - A.dot(dv_sec)))
     coarse = lambda x: 1e-3 * max(1.0, abs(x)) + 1e-4  # noqa: E731
-    consistent = all(abs(dv_sec[i] - on[i]) <= coarse(on[i]) for i in range(2)) and on[2] == 0.0 and resid <= 1e-3 * max(float(np.linalg.norm(dv)), 1e-12) + 1e-12
+    # the gravity-gradient coupling of a long burn (relative ~2e-4 of ITS seconds) leaks into both least-squares components: the agreement of the two
+    # measurements is judged relative to the total thrust-on time
+    consistent = all(abs(dv_sec[i] - on[i]) <= coarse(sum(on)) for i in range(2)) and on[2] == 0.0 and resid <= 1e-3 * max(float(np.linalg.norm(dv)), 1e-12) + 1e-12
     measured = [on[i] if consistent else float(dv_sec[i]) for i in range(2)]
     err = [measured[i] - want[i] for i in range(2)]
     thr = [0.5 * float(TOL_T) if consistent else coarse(want[i]) for i in range(2)]
